@@ -1,15 +1,21 @@
-(** Model of object listing and lookup of the file-system store
-    (src/ocfl/store/fs.rs:39-40, 126-205, 269-293, 782-944, 1013-1080;
-     src/ocfl/repo.rs:237-271).
+(** Model of object listing, lookup and purge of the file-system store
+    (src/ocfl/store/fs.rs:39-40, 126-253, 317-344, 499-566, 913-1082, 1151-1231;
+     src/ocfl/repo.rs:237-271), as of /repo commits 38fe584 and 4564259.
 
     A repository is an abstract directory tree.  [walk] is [InventoryIter::next]
     (depth-first walk, object root = directory holding a FILE whose name starts
-    with [0=ocfl_object_], no descent into object roots, every directory NAMED
-    [extensions] is skipped at any depth), [extract_object_id] is the regex
-    pre-filter over the raw inventory text, [iter_items] the iterator with an
-    optional id matcher, [get_inventory] the lookup through the id->path cache,
-    the layout path or a scan.  Definitions only; lemmas live in
-    Proofs/ListingFacts.v.
+    with [0=ocfl_object_], no descent into object roots, the directory NAMED
+    [extensions] is skipped only directly below the iterator's root),
+    [extract_object_id] is the regex pre-filter over the raw inventory text,
+    [iter_items] the iterator with an optional id matcher, [get_inventory] the
+    lookup through the id->path cache, the layout path or a scan,
+    [purge_object] the purge with its guards and its cache eviction.
+    Definitions only; lemmas live in Proofs/Listing*.v.
+
+    Paths are lists of NORMAL components (std::path::Component::Normal): the
+    CurDir / ParentDir / RootDir branches of validate_object_root
+    (fs.rs:176-183) are outside this representation (Model/Footprint.v, C12,
+    has them on raw strings).
 
     Not modelled (outside the property): symbolic links (file_type() does not
     follow them: never descended), I/O errors of read_dir, invalid UTF-8 in
@@ -74,7 +80,7 @@ Fixpoint names_unique (t : tree) : bool :=
               forallb (fun e => let '(_, c) := e in names_unique c) es
   end.
 
-(** * Object roots: fs.rs:1013-1027 [is_object_root] *)
+(** * Object roots: fs.rs:1151-1165 [is_object_root] *)
 Definition is_decl_entry (e : name * tree) : bool :=
   match snd e with
   | File _ => starts_with K_OBJECT_NAMASTE_FILE_PREFIX (fst e)   (* entry_path.is_file() && name.starts_with(..) *)
@@ -83,14 +89,17 @@ Definition is_decl_entry (e : name * tree) : bool :=
 
 Definition is_object_root (es : entries) : bool := existsb is_decl_entry es.
 
-(** * The walk: fs.rs:883-943.
+(** * The walk: fs.rs:1017-1081.
     The stack of ReadDir iterators is a depth-first pre-order traversal: entering
-    a sub-directory pushes the current iterator (l.931) and resumes it after the
-    sub-directory is exhausted (l.895-897), i.e. structural recursion.  The
-    storage root's own entries are iterated by the same loop (l.823), so a
-    top-level [extensions] is skipped by the same test as a nested one.
-    [deep = true] is the code (l.915: the NAME test applies at every depth);
-    [deep = false] never skips by name and serves the specification below. *)
+    a sub-directory pushes the current iterator (l.1069) and resumes it after the
+    sub-directory is exhausted (l.1027-1031), i.e. structural recursion.
+
+    [walk_gen deep] is the loop for the entries of one directory.  With
+    [deep = false] no directory is skipped by name: that is what the loop does
+    for every directory other than the iterator's root, because the test of
+    l.1051-1055 is [name == extensions && parent == self.root] (38fe584).
+    [deep = true] skips the name at every depth: the walk BEFORE 38fe584
+    ([walk_before_fix], kept for the historical lemmas only). *)
 Fixpoint walk_gen (deep : bool) (t : tree) : list objroot :=
   match t with
   | File _ => []
@@ -98,18 +107,35 @@ Fixpoint walk_gen (deep : bool) (t : tree) : list objroot :=
       flat_map (fun e =>
         let '(n, c) := e in
         match c with
-        | File _ => []                                         (* l.912 ftype.is_dir() *)
+        | File _ => []                                         (* l.1046 ftype.is_dir() *)
         | Dir ces =>
-            if deep && bytes_eqb n EXT then []                 (* l.915-917 *)
-            else if is_object_root ces then [([n], ces)]       (* l.919-929: yield, no descent *)
-            else map (fun r => (n :: fst r, snd r)) (walk_gen deep c)   (* l.931-937 *)
+            if deep && bytes_eqb n EXT then []
+            else if is_object_root ces then [([n], ces)]       (* l.1057-1067: yield, no descent *)
+            else map (fun r => (n :: fst r, snd r)) (walk_gen deep c)   (* l.1068-1076 *)
         end) es
   end.
 
-Definition walk (t : tree) : list objroot := walk_gen true t.
+(** the iterator's root (l.951-963: the first ReadDir is the root's): its own
+    entries are the only ones whose parent is [self.root] *)
+Definition walk (t : tree) : list objroot :=
+  match t with
+  | File _ => []
+  | Dir es =>
+      flat_map (fun e =>
+        let '(n, c) := e in
+        match c with
+        | File _ => []                                         (* l.1046 *)
+        | Dir ces =>
+            if bytes_eqb n EXT then []                         (* l.1051-1055 *)
+            else if is_object_root ces then [([n], ces)]       (* l.1057-1067 *)
+            else map (fun r => (n :: fst r, snd r)) (walk_gen false c)   (* l.1068-1076: parent <> root below *)
+        end) es
+  end.
+
+Definition walk_before_fix (t : tree) : list objroot := walk_gen true t.
 
 (** * JSON text of the id field, as serde_json writes it
-    (fs.rs:758-762: to_writer_pretty / to_writer; [id] is the first field of
+    (fs.rs:892-896: to_writer_pretty / to_writer; [id] is the first field of
     [Inventory], inventory.rs:30-31).  serde_json escapes exactly: the quote,
     the backslash and the control characters below 0x20 (\b \t \n \f \r, else
     \u00XX with lower-case hex digits); everything else, non-ASCII included, is
@@ -146,7 +172,7 @@ Definition serialize_inventory (pretty : bool) (id rest : bytes) : bytes :=
   (if pretty then bs [123; 10; 32; 32] ++ b """id"": """ else b "{""id"":""")
     ++ json_escape id ++ QUO :: rest.
 
-(** * The id pre-filter: fs.rs:39-40, 851-880.
+(** * The id pre-filter: fs.rs:39-40, 985-1014.
     Regex QUOTE id QUOTE \s* : \s* QUOTE ( [^QUOTE]+ ) QUOTE  (= K_OBJECT_ID_MATCHER, pinned in
     Proofs/ListingFacts.v; Unicode mode: \s is the White_Space property),
     applied by grep-searcher line by line (the pattern can match the line
@@ -227,7 +253,7 @@ Fixpoint extract_object_id (s : bytes) : option bytes :=
       else extract_object_id r
   end.
 
-(** * Parsing the id back (serde_json::from_slice, fs.rs:1064-1068), restricted to
+(** * Parsing the id back (serde_json::from_slice, fs.rs:1213-1217), restricted to
     inventories whose first member is the id (what rocfl and every writer that
     follows the spec's field order produces).  Returns the UNESCAPED id. *)
 Definition json_ws (a : N) : bool := (a =? 32) || (a =? 9) || (a =? 10) || (a =? 13).
@@ -333,7 +359,7 @@ Definition parse_inventory_id (text : bytes) : option bytes :=
   | [] => None
   end.
 
-(** fs.rs:1032-1080 [parse_inventory]: the mutable-HEAD inventory wins if that
+(** fs.rs:1181-1231 [parse_inventory] / [resolve_inventory_path]: the mutable-HEAD inventory wins if that
     path exists, else <root>/inventory.json; the result here is the parsed id *)
 Definition parse_inventory (ces : entries) : res bytes :=
   let parse c := match parse_inventory_id c with Some i => Ok i | None => Err end in
@@ -347,7 +373,7 @@ Definition parse_inventory (ces : entries) : res bytes :=
       end
   end.
 
-(** * The iterator: fs.rs:831-849 [create_if_matches] *)
+(** * The iterator: fs.rs:965-983 [create_if_matches] *)
 Inductive item :=
 | IOk (p : path) (id : bytes)      (* Some(Ok(inventory)) *)
 | IErr (p : path).                 (* Some(Err(_)): the iterator continues *)
@@ -358,28 +384,28 @@ Definition item_of_res (p : path) (r : res bytes) : item :=
 Definition create_if_matches (matcher : option (bytes -> bool)) (r : objroot) : list item :=
   let '(p, ces) := r in
   match matcher with
-  | None => [item_of_res p (parse_inventory ces)]                          (* l.847 *)
+  | None => [item_of_res p (parse_inventory ces)]                          (* l.981 *)
   | Some m =>
       match lookup1 ces INV with
       | Some (File c) =>
           match extract_object_id c with
-          | Some x => if m x then [item_of_res p (parse_inventory ces)] else []   (* l.836-841 *)
-          | None => [IErr p]                                               (* l.874: no match *)
+          | Some x => if m x then [item_of_res p (parse_inventory ces)] else []   (* l.970-976 *)
+          | None => [IErr p]                                               (* l.1008: no match *)
           end
-      | _ => [IErr p]                                                      (* l.865: search_path failed *)
+      | _ => [IErr p]                                                      (* l.999: search_path failed *)
       end
   end.
 
 Definition iter_items (matcher : option (bytes -> bool)) (t : tree) : list item :=
   flat_map (create_if_matches matcher) (walk t).
 
-(** repo.rs:237-248 / fs.rs:281-293: [glob = None] lists everything, else the
-    compiled glob is applied to the EXTRACTED id (fs.rs:803-813). *)
+(** repo.rs:237-248 / fs.rs:329-344: [glob = None] lists everything, else the
+    compiled glob is applied to the EXTRACTED id (fs.rs:937-947). *)
 Definition list_objects (gmatch : bytes -> bytes -> bool) (t : tree) (glob : option bytes) : list item :=
   iter_items (option_map gmatch glob) t.
 
 (** repo.rs:256-271: the same iterator over the staging root (an FsOcflStore of
-    its own, repo.rs:1367-1375) *)
+    its own, repo.rs:1444) *)
 Definition list_staged_objects (gmatch : bytes -> bytes -> bool) (staging : tree) (glob : option bytes) : list item :=
   list_objects gmatch staging glob.
 
@@ -388,36 +414,39 @@ Definition listed_ids (l : list item) : list bytes :=
 Definition listed_errors (l : list item) : list path :=
   flat_map (fun it => match it with IOk _ _ => [] | IErr p => [p] end) l.
 
-(** * Lookup: fs.rs:126-205, 269-276 *)
+(** * Lookup: fs.rs:126-253, 317-324 *)
 Inductive getres :=
 | Found (p : path) (id : bytes)
 | NotFound
 | Corrupt          (* RocflError::CorruptObject: another id lives at that path *)
 | GenErr.          (* the path exists but no inventory can be parsed there *)
 
-(** fs.rs:184-205 *)
+(** fs.rs:232-253 *)
 Definition get_inventory_by_path (t : tree) (id : bytes) (p : path) : getres :=
   match lookup_path t p with
-  | None => NotFound                                    (* l.187, 203 *)
+  | None => NotFound                                    (* l.235, 250-252 *)
   | Some (File _) => GenErr                             (* exists; reading <file>/inventory.json fails *)
   | Some (Dir ces) =>
       match parse_inventory ces with
-      | Ok i => if bytes_eqb i id then Found p i else Corrupt      (* l.190-201 *)
+      | Ok i => if bytes_eqb i id then Found p i else Corrupt      (* l.238-249 *)
       | _ => GenErr
       end
   end.
 
 Fixpoint first_ok (l : list item) : getres :=
   match l with
-  | [] => NotFound                                      (* l.179 *)
-  | IOk p i :: _ => Found p i                           (* l.169-174: NO comparison of inventory.id with the request *)
-  | IErr _ :: r => first_ok r                           (* l.175-178: logged, continue *)
+  | [] => NotFound                                      (* l.226 *)
+  | IOk p i :: _ => Found p i                           (* l.217-222: NO comparison of inventory.id with the request *)
+  | IErr _ :: r => first_ok r                           (* l.223-225: logged, continue *)
   end.
 
-(** fs.rs:158-182, 792-799: the matcher compares the EXTRACTED id with the request *)
+(** fs.rs:206-229, 926-933: the matcher compares the EXTRACTED id with the request *)
 Definition scan_for_inventory (t : tree) (id : bytes) : getres :=
   first_ok (iter_items (Some (bytes_eqb id)) t).
 
+(** the handle's id->path cache (fs.rs:48-50; a HashMap: at most one path per id).
+    Written by get_object_root_path (l.149-150), scan_for_inventory (l.218-220)
+    and, since 4564259, evicted by purge_object (l.510-513). *)
 Definition cache := list (bytes * path).
 
 Fixpoint cache_get (c : cache) (id : bytes) : option path :=
@@ -426,8 +455,11 @@ Fixpoint cache_get (c : cache) (id : bytes) : option path :=
   | e :: r => if bytes_eqb (fst e) id then Some (snd e) else cache_get r id
   end.
 
-(** fs.rs:139-156 + 269-276.  [layout] is the mapping of the configured storage
-    layout ([None]: no layout declared).  Entries are never evicted (l.48). *)
+Definition cache_remove (c : cache) (id : bytes) : cache :=
+  filter (fun e => negb (bytes_eqb (fst e) id)) c.
+
+(** fs.rs:139-156 + 317-324.  [layout] is the mapping of the configured storage
+    layout ([None]: no layout declared). *)
 Definition get_inventory (layout : option (bytes -> path)) (c : cache) (t : tree) (id : bytes)
   : getres * cache :=
   match cache_get c id with
@@ -437,14 +469,70 @@ Definition get_inventory (layout : option (bytes -> path)) (c : cache) (t : tree
       | Some m => (get_inventory_by_path t id (m id), (id, m id) :: c)   (* l.146-152 *)
       | None =>
           match scan_for_inventory t id with
-          | Found p i => (Found p i, (id, p) :: c)                       (* l.170-172 *)
+          | Found p i => (Found p i, (id, p) :: c)                       (* l.217-221 *)
           | r => (r, c)
           end
       end
   end.
 
-(** * purge: fs.rs:435-460 removes the object's directory tree.  (clean_dirs_up
-    then removes EMPTY ancestors, which no listing can observe.) *)
+(** fs.rs:126-135 [lookup_or_find_object_root_path]: the root path only
+    ([None]: NotFound; a scan has no other failure, see [first_ok]) *)
+Definition find_root (layout : option (bytes -> path)) (c : cache) (t : tree) (id : bytes)
+  : option path * cache :=
+  match cache_get c id with
+  | Some p => (Some p, c)
+  | None =>
+      match layout with
+      | Some m => (Some (m id), (id, m id) :: c)
+      | None =>
+          match scan_for_inventory t id with
+          | Found p _ => (Some p, (id, p) :: c)
+          | _ => (None, c)
+          end
+      end
+  end.
+
+(** * Guards of create and purge: fs.rs:160-204 [validate_object_root] on a path
+    of Normal components.  Refused: the empty path (l.196-201), a first component
+    named [extensions] (l.168-174), a PROPER prefix that is an object root
+    (l.186-194: [components.peek().is_some() && current.is_dir() && is_object_root]). *)
+Fixpoint nested_in_object (t : tree) (p : path) : bool :=
+  match p with
+  | [] => false
+  | n :: q =>
+      match q with
+      | [] => false                                     (* the last component is not tested *)
+      | _ :: _ =>
+          match t with
+          | File _ => false
+          | Dir es =>
+              match lookup1 es n with
+              | Some (Dir ces) => is_object_root ces || nested_in_object (Dir ces) q
+              | _ => false                              (* missing or a file: is_dir() fails from here on *)
+              end
+          end
+      end
+  end.
+
+Definition validate_object_root (t : tree) (p : path) : bool :=
+  match p with
+  | [] => false
+  | n :: _ => negb (bytes_eqb n EXT) && negb (nested_in_object t p)
+  end.
+
+(** fs.rs:1168-1176 [contains_object_root]: WalkDir with min_depth 2 - a FILE
+    named like an object declaration in some sub-directory, at any depth *)
+Fixpoint has_decl_file (t : tree) : bool :=
+  match t with
+  | File _ => false
+  | Dir es => existsb (fun e => is_decl_entry e || (let '(_, c) := e in has_decl_file c)) es
+  end.
+
+Definition contains_object_root (ces : entries) : bool :=
+  existsb (fun e => match snd e with Dir _ => has_decl_file (snd e) | File _ => false end) ces.
+
+(** * purge: removal of a directory tree (fs.rs:543-551).  (clean_dirs_up,
+    l.553-563, then removes EMPTY ancestors, which no listing can observe.) *)
 Fixpoint remove_at (t : tree) (p : path) : tree :=
   match t with
   | File c => File c
@@ -457,6 +545,41 @@ Fixpoint remove_at (t : tree) (p : path) : tree :=
                              if bytes_eqb m n then (m, remove_at c q) else (m, c)) es)
       end
   end.
+
+Inductive purge_res := POk | PErr.
+
+(** fs.rs:518-551: what purge does once the object root path [p] is resolved *)
+Definition purge_at (t : tree) (id : bytes) (p : path) : purge_res * tree :=
+  if negb (validate_object_root t p) then (PErr, t)                (* l.518 *)
+  else
+    let removed := (POk, remove_at t p) in                         (* l.543-551 *)
+    let kept := (POk, t) in
+    match lookup_path t p with
+    | None => kept                                                 (* l.520, 543: nothing there *)
+    | Some (File _) => kept                                        (* l.521-523 *)
+    | Some (Dir ces) =>
+        if is_object_root ces then
+          match parse_inventory ces with
+          | Ok i => if bytes_eqb i id then removed else kept       (* l.526-530: another object's root *)
+          | _ => removed                                           (* no readable inventory: debris *)
+          end
+        else if contains_object_root ces then kept                 (* l.531-534 *)
+        else removed                                               (* debris without objects beneath *)
+    end.
+
+(** fs.rs:499-566 [purge_object]: result, repository afterwards, cache afterwards.
+    The cached path is forgotten as soon as the root is resolved (l.510-513,
+    4564259), whatever happens next. *)
+Definition purge_object (layout : option (bytes -> path)) (c : cache) (t : tree) (id : bytes)
+  : purge_res * tree * cache :=
+  match find_root layout c t id with
+  | (None, c1) => (POk, t, c1)                                     (* l.503 *)
+  | (Some p, c1) => (purge_at t id p, cache_remove c1 id)
+  end.
+
+(** the cache as purge left it BEFORE 4564259 (no eviction); historical lemmas only *)
+Definition purge_cache_before_fix (layout : option (bytes -> path)) (c : cache) (t : tree) (id : bytes) : cache :=
+  snd (find_root layout c t id).
 
 (** * Specification side: the objects a repository holds.
     OCFL reserves only the [extensions] directory of the STORAGE ROOT; an object
@@ -475,4 +598,23 @@ Definition root_id (r : objroot) : list bytes :=
 
 Definition committed_ids (t : tree) : list bytes := flat_map root_id (spec_roots t).
 
+(** [p] is the root of the object [id] *)
+Definition root_is (id : bytes) (p : path) (r : objroot) : bool :=
+  path_eqb (fst r) p && existsb (bytes_eqb id) (root_id r).
+
+(** every entry of a handle's cache names the root of that very object
+    (what the cache of a handle without layout holds, Proofs/ListingHandle.v) *)
+Definition cache_sound (c : cache) (t : tree) : bool :=
+  forallb (fun e => existsb (root_is (fst e) (snd e)) (spec_roots t)) c.
+
+(** every entry is the layout's own mapping (what the cache of a handle with a
+    layout holds: l.146-152 is the only writer then) *)
+Definition cache_of_layout (m : bytes -> path) (c : cache) : bool :=
+  forallb (fun e => path_eqb (snd e) (m (fst e))) c.
+
+(** the path lies at or below the storage root's own extensions directory *)
+Definition in_root_ext (p : path) : bool :=
+  match p with [] => false | n :: _ => bytes_eqb n EXT end.
+
+(** some component is NAMED extensions (the rule before 38fe584; historical lemmas only) *)
 Definition has_ext (p : path) : bool := existsb (bytes_eqb EXT) p.
